@@ -103,6 +103,7 @@ type Engine struct {
 	Found       map[string]*Found // by signature
 	Hard        []string          // hard errors (nondeterminism etc.)
 	dirtyLeft   int32             // continuations of memory-carrying processes still allowed in this run
+	dirtyLeftRB int32             // ... of processes whose memory was written by a message that was rolled back
 	Samples     [][]string
 }
 
@@ -171,7 +172,7 @@ func (e *Engine) Run() error {
 	if e.Workers <= 0 {
 		e.Workers = runtime.NumCPU()
 	}
-	e.dirtyLeft = 6
+	e.dirtyLeft, e.dirtyLeftRB = 4, 8
 	e.index = map[[32]byte]int32{}
 	e.Wit = map[string]int64{}
 	e.Outcomes = map[string]int64{}
@@ -363,7 +364,7 @@ func (e *Engine) expandNode(x *OCtx, id int32) []expandResult {
 			// the transition changed what the keeper holds in memory: state outside the store (keepermem.go). Follow the
 			// process that now carries it for a few steps, then go on with a clean keeper so that it reaches no other state.
 			x.Wit("engine:keeper-memory-changed-by-a-transition")
-			if e.dirtyBudget() {
+			if e.dirtyBudget(!res.OK()) {
 				extra = e.dirtyContinuation(x, pre, a)
 			}
 			x.Rig = NewRig(e.Sc.Rig)
@@ -494,7 +495,12 @@ func (e *Engine) SampleTraces(n int) [][]string {
 }
 
 // dirtyBudget: at most a handful of continuations per run (each costs about a second); further events are only counted.
-func (e *Engine) dirtyBudget() bool {
+// Memory left behind by a message that was rolled back is the sharper case (the store forgot the message, the keeper did
+// not) and has a budget of its own, so that memory written by successful messages early in the search cannot use it up.
+func (e *Engine) dirtyBudget(afterRollback bool) bool {
+	if afterRollback {
+		return atomic.AddInt32(&e.dirtyLeftRB, -1) >= 0
+	}
 	return atomic.AddInt32(&e.dirtyLeft, -1) >= 0
 }
 
